@@ -82,9 +82,11 @@ class OperEngine(c01.CallEngine):
           v = ['obj', 'o2']
         elif x < 0.8 and later:
           v = ['ref', [], rng.choice(later), rng.random() < 0.6]
-        else:
+        elif x < 0.95:
           v = ['macro', 'mm']
           ops.append(['pbind', 'mm', ginm.gen_plain(rng, 0)])
+        else:
+          v = ['macro', 'undef']        # never defined: the call that uses it fails, the record must stay printable
         key = '/'.join(sc + [c['sel'] + '.' + p])
         ops.append(['pbind', key, v] if ginm.textable(v) else ['bind', key, v])
     calls = []
@@ -167,7 +169,11 @@ class OperEngine(c01.CallEngine):
             break
     nontrivial = any(len({s for s, _ in v}) >= 2 and len({f for _, f in v}) >= 2 for v in per_key_supplied.values())
     # replay: parse the text into a fresh gin, repeat the same calls
-    text = m.gin.operative_config_str()
+    try:
+      text = m.gin.operative_config_str()
+    except Exception as e:  # pylint: disable=broad-except
+      text = ''
+      fails.append(('operative-config-str-raised', '%s: %s' % (type(e).__name__, str(e)[:200])))
     values_ok = all(representable(o[2]) for o in case['ops'] if o[0] in ('bind', 'pbind')) and all_ok
     if values_ok and not fails:
       b = ginm.Machine(mutate=False)
